@@ -150,4 +150,35 @@ submodules, sorted by name, each name once — names are compared exactly -/
 def publicGroups (ds : List Decl) (moduleGroups : List String) : List String :=
   dedupAux [] (sortStr (((ds.filter (fun d => !d.isPrivate)).flatMap Decl.groups) ++ moduleGroups))
 
+/-! ### the order of `--unsorted` -/
+
+/-- where a recipe stands: the byte offsets of the `import` statements that lead from the module's own file to the
+recipe's file (outermost first), and the offset of the recipe's name in its file -/
+structure Placed where
+  name : String
+  imports : List Nat
+  offset : Nat
+  deriving Repr, DecidableEq, Inhabited
+
+/-- `Ord` of slices: element by element, a proper prefix first -/
+def sliceCmp : List Nat → List Nat → Ordering
+  | [], [] => .eq
+  | [], _ :: _ => .lt
+  | _ :: _, [] => .gt
+  | a :: as, b :: bs => if a < b then .lt else if b < a then .gt else sliceCmp as bs
+
+/-- the key of `--unsorted`: `(import_offsets, name.offset)` (src/justfile.rs `public_recipes`) -/
+def placedLt (a b : Placed) : Bool :=
+  match sliceCmp a.imports b.imports with
+  | .lt => true
+  | .gt => false
+  | .eq => a.offset < b.offset
+
+def insertPlaced (r : Placed) : List Placed → List Placed
+  | [] => [r]
+  | x :: xs => if placedLt r x then r :: x :: xs else x :: insertPlaced r xs
+
+/-- the recipes of one module in the order `--unsorted` lists them (insertion sort is stable, like `sort_by_key`) -/
+def unsortedOrder (rs : List Placed) : List Placed := rs.foldr insertPlaced []
+
 end Just.Listing
